@@ -154,7 +154,9 @@ def explore(ctx):
                     res.count("oracle:roundtrip-ok")
             elif not ok_rt:
                 if amb and type_optional_only(op["ty"], job["prog"]):
-                    res.count("oracle:excluded-ambiguous-enum")
+                    # by-value lookup of untagged text: a member whose text spells another member's value (recorded finding)
+                    res.failures.append({"what": "round trip of a value of a program with a shadowed enum member", "input": inp, "real": r_,
+                                         "finding": "enumValueShadow"})
                     continue
                 # several non-None union members: first-acceptor semantics on both sides (C08)
                 res.failures.append({"what": "round trip through a multi-member union", "input": inp, "real": r_,
@@ -179,6 +181,13 @@ def witness(fid):
     if fid == "unionFirstAcceptor":
         T = typing.Union[int, str]
         return typelib.unmarshal(T, typelib.marshal("5", t=T)) != "5"
+    if fid == "enumValueShadow":
+        import enum
+
+        class E(enum.Enum):
+            A = 1
+            B = "1"
+        return typelib.unmarshal(E, typelib.marshal(E.B, t=E)) is not E.B
     if fid == "crossWireUnion":
         T = typing.Union[datetime.timedelta, int]
         m = typelib.marshal(90, t=T)
